@@ -118,3 +118,25 @@ def states_tensor(rows):
 
 def to_list(t):
     return np.asarray(t.cpu() if hasattr(t, "cpu") else t).reshape(-1).tolist()
+
+
+CONTAINERS = ["list", "tuple", "np.int64", "np.int32", "np.int16", "np.uint8", "np.int8", "torch.int64", "torch.int32", "torch.int16", "torch.uint8", "torch.int8"]
+_CMAX = {"int64": 2**63 - 1, "int32": 2**31 - 1, "int16": 2**15 - 1, "uint8": 255, "int8": 127}
+
+
+def pick_container(rng, maxval, minval=0):
+    """A container kind (recorded in the case) whose dtype can hold every entry of the states."""
+    ok = [c for c in CONTAINERS if "." not in c or (maxval <= _CMAX[c.split(".")[1]] and (minval >= 0 or "uint" not in c) and minval >= -_CMAX[c.split(".")[1]])]
+    return rng.choice(ok)
+
+
+def container(kind, rows):
+    """The same state(s) in the named container: AnyStateType is Union[torch.Tensor, np.ndarray, list]."""
+    if kind == "list":
+        return [list(map(int, r)) for r in rows] if rows and isinstance(rows[0], (list, tuple)) else list(map(int, rows))
+    if kind == "tuple":
+        return tuple(tuple(map(int, r)) for r in rows) if rows and isinstance(rows[0], (list, tuple)) else tuple(map(int, rows))
+    lib, dt = kind.split(".")
+    if lib == "np":
+        return np.array(rows, dtype=getattr(np, dt))
+    return torch.tensor(rows, dtype=getattr(torch, dt))
